@@ -521,6 +521,23 @@ class TimedStream(Lane):
         return obs
 
     def replay_by_role(self, cd, obname, out, model):
+        answers = list(cd['answers'])
+        if 'elapsed' not in answers or not cd['timed']:
+            # a stream that fails (or is simply abandoned) while the search is still open at the server, then finish():
+            # natively the failure comes from an adapter rejecting an item after `k` delivered ones
+            k = 0
+            for a in answers:
+                if a != 'item': break
+                k += 1
+            fails = k < len(answers) and answers[k] == 'closed'
+            steps = [BIND, stream_start([{'FailAfter': k}] if fails else [])] + [{'do': 'next'}] * (k + (1 if fails else 0)) + ([{'do': 'finish'}] if cd['finish'] else [{'do': 'drop_stream'}]) + [{'do': 'snapshot'}, {'do': 'delete', 'dn': 'dc=y'}]
+            case = script(steps, [BIND_OK, {'replies': [{'id': 'req', 'op': ENTRY}] * (k + 1)}, {'replies': [{'id': 'req', 'op': okres(11, 7)}]}])
+            v = native([case])[0]['value']
+            sn, dl = step(v, 'snapshot'), step(v, 'delete')
+            bad = None
+            if cd['finish'] and sn and sn['inuse']: bad = f'finish() of a stream that {"failed" if fails else "was not read to the end"} leaves its ID reserved: {sn["inuse"]}'
+            elif not (isinstance(dl, dict) and dl.get('ok', {}).get('rc') == 7): bad = f'connection unusable afterwards: {json.dumps(dl)[:80]}'
+            return bool(bad), 'unfinished-search-finish', f'search finished before its end: {bad}' if bad else None, case, {'native': v['steps']}
         # a timed search: first item arrives, then the server stalls
         case = script([BIND, {'do': 'with_timeout', 'ms': 80}, stream_start([]), {'do': 'next'}, {'do': 'next'}, {'do': 'drop_stream'}, {'do': 'snapshot'}, {'do': 'delete', 'dn': 'dc=y'}],
                       [BIND_OK, {'replies': [{'id': 'req', 'op': ENTRY}]}, {'replies': [{'id': 'req', 'op': okres(11, 7)}]}])
